@@ -21,6 +21,8 @@ func checkC08(r *Report, p *Program) {
 	r09_5(r, p)
 	r07_3(r, p)
 	r07_6b(r, p)
+	// a revision's name is unique per parent: two parents never collide on Create (shared with C09)
+	r09_4(r, p)
 }
 
 // ---- key domains ----
